@@ -244,6 +244,68 @@ func properties() map[string]*propDef {
 		Rule:           "Produces list x Accept shape x capacity, partitioned by header length; the Accept header is a flat symbolic string; the entity-writer decision is taken twice per request with independent map orders",
 		RequiredCovers: []string{"admitted", "not-admitted", "definite"},
 	}
+	m["C07"] = &propDef{
+		ID: "C07",
+		Items: func(tier string, seed int) []item {
+			var out []item
+			for entry := 0; entry < 4; entry++ {
+				for cenc := 0; cenc < 2; cenc++ {
+					for renc := 0; renc < 3; renc++ {
+						if entry >= 2 && renc != 0 {
+							continue // plain handlers have no route
+						}
+						for kind := 0; kind < 4; kind++ {
+							if entry >= 2 && kind == 1 {
+								continue
+							}
+							provs := []int{(entry + cenc + renc + kind + seed) % 3}
+							if tier == "thorough" {
+								provs = []int{0, 1, 2}
+							}
+							for _, p := range provs {
+								out = append(out, item{Harness: "H_C07", Cfg: []int{entry, cenc, renc, kind, p},
+									Label: "entry (Dispatch, ServeHTTP, Handle, HandleWithFilter), container encoding, route setting (unset/off/on), outcome kind (handler, routing error, panic before/after output), provider"})
+							}
+						}
+					}
+				}
+			}
+			return out
+		},
+		Bounds: map[string]interface{}{"accept_encoding_bytes": 12, "chunks": "1..2 of <= 3 bytes", "pre_set_content_encoding": "symbolic flag"},
+		Assumptions: append([]string{"compress/gzip and compress/zlib writers are typestate stubs: Reset, Write*, Close emits one opaque token ENC(coding, payload) to the destination; that a real stream decodes to the concatenation of the writes is assumed, not checked",
+			"ServeMux is modelled by the Go 1.21 matching rules", "sync.Pool is a LIFO multiset stub"}, commonAssumptions...),
+		Rule:           "entry point x container switch x route switch x outcome kind x provider (quick: one provider per combination chosen by seed; thorough: all three), Accept-Encoding, payload chunks and a pre-set Content-Encoding symbolic",
+		Exhaustive:     true,
+		RequiredCovers: []string{"encoded", "identity", "preset", "escaped"},
+	}
+	m["C10"] = &propDef{
+		ID: "C10",
+		Items: func(tier string, seed int) []item {
+			var out []item
+			shapes := [][]int{{1, 1, 1}, {0, 0, 0}, {2, 0, 1}}
+			if tier == "thorough" {
+				shapes = append(shapes, []int{2, 2, 2}, []int{0, 2, 0}, []int{1, 0, 2})
+			}
+			for _, sh := range shapes {
+				for recov := 0; recov < 2; recov++ {
+					for enc := 0; enc < 2; enc++ {
+						for entry := 0; entry < 2; entry++ {
+							out = append(out, item{Harness: "H_C10", Cfg: []int{sh[0], sh[1], sh[2], recov, enc, entry},
+								Label: "container/service/route filter counts, recovery on, container encoding on, entry (Dispatch/ServeHTTP)"})
+						}
+					}
+				}
+			}
+			return out
+		},
+		Bounds: map[string]interface{}{"filters_per_level": "0..2", "panic_positions": "before/after each filter passes control on, handler before/after writing, none (symbolic choice)",
+			"behaviour_bits_per_filter": "stop + (replace pair | set attribute)", "follow_up_requests": 1},
+		Assumptions: append([]string{"compressors are typestate stubs (see C07)", "sync.RWMutex is modelled by reader/writer counters; 'no lock left held' is the counters being zero",
+			"plain Handle/HandleWithFilter handlers have no route chain and no recover point and are not part of this property's chain"}, commonAssumptions...),
+		Rule:           "filter counts x recovery switch x encoding switch x entry point; the panic position is a symbolic choice over every position of the chain; each run is followed by a normal request on the same container",
+		RequiredCovers: []string{"raised", "not-raised", "recovery-on", "recovery-off", "nothing-written-before", "partial-output-before"},
+	}
 	m["C15"] = &propDef{
 		ID: "C15",
 		Items: func(tier string, seed int) []item {
